@@ -490,6 +490,32 @@ def unjson(x: Any):
 
 
 # --------------------------------------------------------------------------------------------
+def render_columns(backend: str, consts: List[Any]):
+    """Translate ds.Select(lambda e: {"c0": K0, "c1": K1, ...}) -> [(declared type, assigned text)] per column, or the error."""
+    body = "{" + ", ".join(f'"c{i}": {k!r}' for i, k in enumerate(consts)) + "}"
+    a = impl.query_ast(f"ds.Select(lambda e: {body})", None)
+    r = impl.translate(backend, a)
+    impl.reset_globals()
+    if r[0] == "error":
+        return ("error", r[1])
+    sl = r[1]["slots"]
+    decl = {}
+    for ln in sl.get("class_decl", []):
+        m = re.match(r"^\s*(\S.*\S)\s+(_c\d+?)\d*;\s*$", ln)
+        if m:
+            decl[re.sub(r"\d+$", "", m.group(2)[:3]) if False else m.group(2)] = m.group(1)
+    out = []
+    for i in range(len(consts)):
+        typ = next((t for ln in sl.get("class_decl", []) for t, nm in [ln.strip().rstrip(";").rsplit(" ", 1)] if re.fullmatch(rf"_c{i}\d+", nm)), None)
+        val = next((m.group(1) for ln in sl.get("query_code", []) for m in [re.match(rf"^\s*_c{i}\d+ = (.*);\s*$", ln)] if m), None)
+        out.append((typ, val))
+    return ("ok", out)
+
+
+MULTI_CONSTS = [(True, 1.0), (1.0, True), (True, 1), (1, True), (1, 1.0), (1.0, 1), (True, 1.0, 1), (1, 1.0, True), (False, 0.0), (0.0, False), (0, False, 0.0),
+                (2, 2.0), (2.0, 2), (1e3, 1000), (1000, 1e3), (0.5, True, 0.5), (True, True, 1.0)]
+
+
 def check(tier: str, seed: int, t0: float, build: core.BuildStatus) -> int:
     import logging
 
@@ -575,6 +601,31 @@ def check(tier: str, seed: int, t0: float, build: core.BuildStatus) -> int:
             if g != want:
                 oc.correspondence_breaks.append({"float_repr": repr(x), "py_float_repr/py_float_finite/cpp_float_lit": g, "expected": want})
         model.close()
+    # several constants in one query: each is rendered as it is when it stands alone (kind and text), whatever other
+    # constants of equal value but another kind the query contains
+    alone: Dict[Any, Any] = {}
+    multi_n = 0
+    for b in BACKENDS:
+        for consts in MULTI_CONSTS:
+            got = render_columns(b, list(consts))
+            oc.evaluations += 1
+            multi_n += 1
+            want = []
+            for k in consts:
+                key = (b, type(k).__name__, repr(k))
+                if key not in alone:
+                    r1 = render_columns(b, [k])
+                    alone[key] = r1[1][0] if r1[0] == "ok" else ("error", r1[1])
+                want.append(alone[key])
+            distinct.add((b, "multi", repr(consts)))
+            if got[0] != "ok" or list(got[1]) != want:
+                oc.violations.append(core.Violation(
+                    key="c18:expr:multi:depends-on-other-constants",
+                    what=f"{b}: the constants {consts!r} in one query are rendered as {got[1] if got[0] == 'ok' else got}, but standing alone each is rendered as {want}",
+                    replay={"kind": "multi", "backend": b, "constants": [[type(k).__name__, repr(k)] for k in consts], "rendered": str(got), "alone": str(want)}))
+            else:
+                oc.traces_validated_against_impl += 1
+    oc.extra["multi_constant_queries"] = multi_n
     oc.distinct_nontrivial = len(distinct)
     oc.rule = (f"corpus ({n_corpus}) + exhaustive part ({len(exh)}: strings of length <= 2 over {EXH_ALPHABET!r} at bank/arg/tree/column/attribute positions, "
                f"{len(INT_EDGES)} integer and {len(FLOAT_EDGES)} float boundary values, booleans, non-literal constants, x 3 back ends) + {n_random} random (45% expression positions: "
@@ -604,6 +655,19 @@ def replay(path: str, build: core.BuildStatus) -> int:
         ps = core.proof_status(PROP_FILE, build)
         print("proof status now:", ps.broken or "all theorems check")
         return 1 if ps.broken else 0
+    if data.get("kind") == "multi":
+        conv = {"bool": lambda t: t == "True", "int": int, "float": float}
+        consts = [conv[t](txt) for t, txt in data["constants"]]
+        got = render_columns(data["backend"], consts)
+        want = []
+        for k in consts:
+            r1 = render_columns(data["backend"], [k])
+            want.append(r1[1][0] if r1[0] == "ok" else ("error", r1[1]))
+        print("constants:", consts, "\nrendered together:", got, "\nrendered alone:", want)
+        if got[0] != "ok" or list(got[1]) != want:
+            print(f"VIOLATION property={PID} replay={path}")
+            return 1
+        return 0
     b, pos, v = data["backend"], data["position"], unjson(data["value"])
     calib = Calib()
     calib.learn()
